@@ -1152,14 +1152,16 @@ class Hyperplane(Subspace):
             A `Hyperplane` fixed by the given isometry.
         """
         try:
-            matrix = reflection.matrix.swapaxes(-1, -2)
+            matrix = reflection.matrix
         except AttributeError:
-            matrix = reflection
+            # a bare array means what Isometry(array) means: a matrix
+            # acting on row vectors
+            matrix = np.asarray(reflection)
 
         # TODO: make this compatible with sage
 
         #numpy's eig expects a matrix operating on the left
-        evals, evecs = np.linalg.eig(matrix)
+        evals, evecs = np.linalg.eig(matrix.swapaxes(-1, -2))
 
         # (reflection may be a plain ndarray, which has no dimension)
         dimension = matrix.shape[-1] - 1
